@@ -140,7 +140,7 @@ class TBRMMData:
       if geos_missing:
         raise ValueError('Required geos {} were not found '
                          'in the data'.format(sorted(geos_missing)))
-      df_elig = geo_eligibility.data.loc[common_geos]
+      df_elig = geo_eligibility.data.loc[sorted(common_geos)]
       geo_eligibility = GeoEligibility(df_elig)
       geo_assignments = geo_eligibility.get_eligible_assignments()
 
